@@ -107,6 +107,12 @@ def cases(seed=0, thorough=False):
             return {A}
         r = ds.Select(sel_{n}).Select(lambda j: j + 1)
         """.format(n=a, A=body(a, "j")), ["lambda j: {A}".format(A=body(a, "j")), "lambda j: j + 1"], True, "D7 one-line def passed by name")
+    # a one-statement def at an indented level whose return expression holds a multi-line string (its continuation lines start at column 0 / 2)
+    for cont in ("2018-B", "  2018-B"):
+        a = nb()
+        add("def mk_%d():\n    def tag_%d(e):\n        return e.mi_tag(\"\"\"run\n%s\"\"\") + %s\n    return tag_%d\nr = ds.Select(mk_%d())" % (a, a, cont, body(a, "e"), a, a),
+            # {S}: the string constant is read from the passed function's code object (the enclosing context indents the file text)
+            ["lambda e: e.mi_tag({S}) + %s" % body(a, "e")], False, "O7 one-line def with a multi-line string, defined at an indented level")
     # ================= layouts that are not documented: identical or an exception, never another lambda
     a, b = nb(), nb()
     add("r = ds.Select(lambda x: {A}).Select(lambda x: {B})".format(A=body(a, "x"), B=body(b, "x")),
